@@ -40,7 +40,7 @@ def voltage_from_field(
     return V_out
 
 
-def noise_voltage(freqs: np.ndarray, h_obs: float) -> np.ndarray:
+def noise_voltage(freqs: np.ndarray, h_obs: float, df: float = 10.0) -> np.ndarray:
     """
     returns noise voltage in V
 
@@ -49,6 +49,8 @@ def noise_voltage(freqs: np.ndarray, h_obs: float) -> np.ndarray:
         frequency band in MHz
     h_obs: float
         height in km above the earth surface of your observer
+    df: float
+        width of one frequency bin in MHz (default = 10, the bin width of the efield parametrization)
 
     Returns:
         noise voltage seen by the antenna at each freq
@@ -63,7 +65,7 @@ def noise_voltage(freqs: np.ndarray, h_obs: float) -> np.ndarray:
     T_sky = sky_noise(freqs)
     T_comb = T_sys + (T_earth * (1.0 - skyFrac) + T_sky * skyFrac)
 
-    bw = 1e6 * (freqs[1] - freqs[0])  # bandwidth in Hz
+    bw = 1e6 * df  # bandwidth in Hz
     Z_load = 50  # 50 ohm load
     k_b = 1.38064852e-23  # boltzmann's constant Watts / Hz / K
 
@@ -74,10 +76,10 @@ def noise_voltage(freqs: np.ndarray, h_obs: float) -> np.ndarray:
 def noise_efield_from_range(freqRange: tuple, h_obs: float) -> np.ndarray:
     df = 10.0
     freqs = np.arange(freqRange[0], freqRange[1], df) + df / 2.0
-    return noise_efield(freqs, h_obs)
+    return noise_efield(freqs, h_obs, df)
 
 
-def noise_efield(freqs: np.ndarray, h_obs: float) -> float:
+def noise_efield(freqs: np.ndarray, h_obs: float, df: float = 10.0) -> float:
     """
     returns noise efield in V/m
 
@@ -86,6 +88,8 @@ def noise_efield(freqs: np.ndarray, h_obs: float) -> float:
         frequency band in MHz
     h_obs: float
         height in km above the earth surface of your observer
+    df: float
+        width of one frequency bin in MHz (default = 10, the bin width of the efield parametrization)
 
     Returns:
         sum of the noise efield seen by the antenna at each freq
@@ -100,7 +104,7 @@ def noise_efield(freqs: np.ndarray, h_obs: float) -> float:
     T_sky = sky_noise(freqs)
     T_comb = T_sys + (T_earth * (1.0 - skyFrac) + T_sky * skyFrac)
 
-    bw = 1e6 * (freqs[1] - freqs[0])  # bandwidth in Hz
+    bw = 1e6 * df  # bandwidth in Hz
     Z_0 = 376.730  # the impedance of free-space in Ohms
     k_b = 1.38064852e-23  # boltzmann's constant Watts / Hz / K
     c = 299792458.0
@@ -169,7 +173,7 @@ def calculate_snr(
     freqs = np.arange(freqRange[0], freqRange[1], df) + df / 2.0
 
     V_sig = Nants * voltage_from_field(Efield, freqs, gain)
-    V_noise = np.sqrt(Nants * np.sum(noise_voltage(freqs, h_obs) ** 2.0))
+    V_noise = np.sqrt(Nants * np.sum(noise_voltage(freqs, h_obs, df) ** 2.0))
     V_sigsum = np.sum(V_sig, axis=1)
     # print(V_sigsum.mean())
     # print(V_noise)
